@@ -773,6 +773,8 @@ pub async fn process_multiple_changes(
         let mut tx =
             InterruptibleTransaction::new(tx, Some(tx_timeout), "process_multiple_changes");
         let mut processed: BTreeMap<ActorId, Vec<_>> = BTreeMap::new();
+        // versions that became fully known in this batch although chunks of them were buffered
+        let mut applied_complete: Vec<(ActorId, CrsqlDbVersion)> = vec![];
         let mut changesets = vec![];
 
         let mut count = 0;
@@ -882,6 +884,10 @@ pub async fn process_multiple_changes(
                     if let KnownDbVersion::Current(CurrentVersion { db_version, .. }) = &known {
                         // last_db_version = Some(*db_version);
                         changesets.push((actor_id, changeset, *db_version, src));
+                    }
+
+                    if !matches!(known, KnownDbVersion::Partial(_)) {
+                        applied_complete.push((actor_id, *versions.start()));
                     }
 
                     known
@@ -1028,6 +1034,12 @@ pub async fn process_multiple_changes(
                         debug!(%actor_id, %version, "still have {gaps_count} gaps in partially buffered seqs: {:?}", seqs.gaps(&full_seqs_range).collect::<Vec<_>>());
                     }
                 }
+            }
+
+            // a version that was applied from a complete changeset is no longer partial,
+            // even if some of its chunks had been buffered earlier (their rows get cleared)
+            for (_, version) in applied_complete.iter().filter(|(a, _)| *a == actor_id) {
+                booked_write.partials.remove(version);
             }
         }
 
